@@ -67,6 +67,16 @@ def gen(rng, tier):
         key, hdr = rbytes(rng, 32), rbytes(rng, 24)
         line = "sstream mixed %s %s - - %s D %s D" % (hx(key), hx(hdr), streamfam.tok_push(rng, tag % 23, tag % 3, tag), streamfam.tok_push(rng, 2, 0, 0))
         cs.append(Case(line, cls="stream-pull/authentic-tag", expect=streamfam.expect_history(line), meta={"why": "authentic stream message with tag byte %d" % tag}))
+    # authentic messages pulled by a state whose 32-bit message counter is about to wrap (state built through hook H1): the counter
+    # arithmetic of pull must not overflow (dev profile: overflow checks on) — 3 deliveries cross the wrap
+    for ctr in ("fcffffff", "fdffffff", "feffffff", "ffffffff"):
+        for api in ("classic",):
+            key, hdr = rbytes(rng, 32), rbytes(rng, 24)
+            toks = []
+            for j in range(5):
+                toks += [streamfam.tok_push(rng, 3 + j, j % 3, j % 4), "D"]
+            line = "sstream %s %s %s %s %s %s" % (api, hx(key), hx(hdr), ctr, ctr, " ".join(toks))
+            cs.append(Case(line, cls="stream-pull/counter-wrap", expect=streamfam.expect_history(line), meta={"why": "authentic messages across the 32-bit counter wrap (start %s)" % ctr}))
     if signfam:
         cs += signfam.c04_cases(rng, tier)
     if pwfam:
